@@ -37,6 +37,20 @@ func main() {
 		os.Exit(cmdExplain(os.Args[2:]))
 	case "dump":
 		os.Exit(cmdDump(os.Args[2:]))
+	case "sigs":
+		// regenerate pinned_sigs.json from a tree (run on the tree the rules were written against)
+		repo := "/repo"
+		if len(os.Args) > 2 {
+			repo = os.Args[2]
+		}
+		c, err := Load(repo, "", "", false)
+		if err != nil {
+			fmt.Println("UNDECIDED:", err)
+			os.Exit(2)
+		}
+		b, _ := json.MarshalIndent(c.dumpSigs(), "", " ")
+		fmt.Println(string(b))
+		os.Exit(0)
 	case "list":
 		var ids []string
 		for id := range propRegistry {
@@ -324,6 +338,8 @@ func runCheck(spec *PropSpec, o *checkOpts) int {
 		if thorough != nil {
 			cov["thorough"] = thorough
 		}
+		// anchors that were not found under the name the rules know and were resolved through the pinned signatures
+		cov["renamed_anchors"] = c.renameLog()
 		ev := map[string]interface{}{
 			"property_id": spec.ID,
 			"tier":        o.tier,
